@@ -171,6 +171,19 @@ pub struct Zalsa {
     runtime: Runtime,
 
     event_callback: Option<Box<dyn Fn(crate::Event) + Send + Sync>>,
+
+    /// Verification hook H4: declared last, so it is dropped after every other field.
+    #[cfg(salsa_rs_salsa_verif)]
+    verif_drop_end: crate::verif_life::ZalsaDropEnd,
+}
+
+/// Verification hook H4: reports the start of the drop, before any field is dropped.
+#[cfg(salsa_rs_salsa_verif)]
+impl Drop for Zalsa {
+    fn drop(&mut self) {
+        let _ = &self.verif_drop_end;
+        crate::verif_life::emit(|| String::from("zdrop_begin"));
+    }
 }
 
 /// All fields on Zalsa are locked behind [`Mutex`]es and [`RwLock`]s and cannot enter
@@ -196,6 +209,8 @@ impl Zalsa {
             event_callback,
             #[cfg(not(feature = "inventory"))]
             nonce: NONCE.nonce(),
+            #[cfg(salsa_rs_salsa_verif)]
+            verif_drop_end: crate::verif_life::ZalsaDropEnd,
         };
 
         // Collect and initialize all registered ingredients.
@@ -471,10 +486,14 @@ impl Zalsa {
         #[cfg(feature = "detailed-trace")]
         let _span = crate::tracing::debug_span!("new_revision", ?new_revision).entered();
 
+        #[cfg(salsa_rs_salsa_verif)]
+        crate::verif_life::emit(|| format!("newrev {}", new_revision.as_usize()));
         for ingredient in &self.ingredients_requiring_reset {
             self.ingredients_vec[ingredient.as_u32() as usize]
                 .reset_for_new_revision(self.runtime.table_mut());
         }
+        #[cfg(salsa_rs_salsa_verif)]
+        crate::verif_life::emit(|| String::from("newrev_end"));
 
         new_revision
     }
@@ -484,10 +503,14 @@ impl Zalsa {
     pub fn evict_lru(&mut self) {
         #[cfg(feature = "detailed-trace")]
         let _span = crate::tracing::debug_span!("evict_lru").entered();
+        #[cfg(salsa_rs_salsa_verif)]
+        crate::verif_life::emit(|| String::from("evictlru"));
         for ingredient in &self.ingredients_requiring_reset {
             self.ingredients_vec[ingredient.as_u32() as usize]
                 .reset_for_new_revision(self.runtime.table_mut());
         }
+        #[cfg(salsa_rs_salsa_verif)]
+        crate::verif_life::emit(|| String::from("evictlru_end"));
     }
 
     #[inline]
